@@ -122,7 +122,8 @@ Subset ==
     /\ obj' = SubsetA(obj, ixs)
     /\ last' = [op |-> "Subset", pre |-> obj, ixs |-> ixs]
     /\ hist' = Append(hist, [op |-> "Subset", ixs |-> ixs])
-    /\ UNCHANGED <<flav, held>>
+    /\ held' = << >>            \* a subset is a new object without the term tables: offsets handed out earlier do not apply to it
+    /\ UNCHANGED flav
 
 Copy ==
     /\ Len(obj.atoms) >= 1
